@@ -74,7 +74,8 @@ let final_of = function
 let qctx_of = function
   | "decl" -> QDecl | "asg" -> QAsg | "ret" -> QRet | "bin" -> QBin | "stmt" -> QStmt | s -> failwith ("qctx " ^ s)
 let tctx_of = function
-  | "ret" -> TRet | "decl" -> TDecl | "void" -> TVoid | "main" -> TMain | s -> failwith ("tctx " ^ s)
+  | "ret" -> TRet | "decl" -> TDecl | "void" -> TVoid | "main" -> TMain
+  | "asg" -> TAsg | "asgmain" -> TAsgMain | s -> failwith ("tctx " ^ s)
 
 let parse_expr (toks : string list) : cexpr =
   let rest = ref toks in
@@ -112,7 +113,6 @@ let exit_s = function
   | XNotEnum -> "notenum"
   | XNoValue -> "novalue"
   | XBadScrutinee -> "badscrutinee"
-  | XRange -> "range"
   | XUnbound -> "unbound"
   | XNotStruct -> "notstruct"
   | XQBad -> "qbad"
